@@ -79,11 +79,11 @@ def run(ctx):
     r = ctx.tlc("MC_TxBuild.tla", ctx.pick("MC_TxBuild.cfg", "MC_TxBuild_t.cfg"))
     cases = [o for o in r["emitted"] if o.get("k") == "seq"]
     ctx.cov["tlc_generated_cases"] = len(cases)
-    if len(cases) > ctx.pick(1200, 20000):
+    if len(cases) > ctx.pick(1200, 60000):
         import random
-        cases = random.Random(ctx.seed).sample(cases, ctx.pick(1200, 20000))
+        cases = random.Random(ctx.seed).sample(cases, ctx.pick(1200, 60000))
     ctx.cov["tlc_generated_cases_replayed"] = len(cases)
-    events = run_driver(ctx, ctx.pick(600, 12000), cases)
+    events = run_driver(ctx, ctx.pick(600, 40000), cases)
     rejects = validate(ctx, events)
     handle(ctx, events, rejects)
     ops = [e for e in events if e["ev"] == "op"]
